@@ -4,6 +4,7 @@ usage: tools/import_round.py [--round N] <ID> [<ID>...]     (default round 2: /t
 import json, os, re, shutil, sys
 args = sys.argv[1:]
 rnd = "2"
+ORIGIN = {"5": "told that a harness of many small random cases exists and asked for scale thresholds, fast paths, three-way conditions, call sequences / state, dropped plumbing on one call path, error and platform paths (tools/agent_prompts/round5_template.txt)"}
 if args and args[0] == "--round":
     rnd = args[1]
     args = args[2:]
@@ -19,7 +20,7 @@ for p in args:
         mm = re.search(r"(?ms)^[-*] \**(?:Needs|Manifests|What it needs|Needs to manifest)[^\n]*(?:\n  [^\n]*)*", notes)
         needs = re.sub(r"\s+", " ", mm.group(0)[2:]).strip() if mm else re.sub(r"\s+", " ", notes)[:400]
         meta = {"property": p, "id": f"{p}-r{rnd}{m}",
-                "origin": f"round {rnd}: independent sub-agent given only the property record and a scratch worktree of the repaired tree; asked for second-order / cross-site changes",
+                "origin": f"round {rnd}: independent sub-agent given only the property record and a scratch worktree of the repaired tree; " + ORIGIN.get(rnd, "asked for second-order / cross-site changes"),
                 "needs_to_manifest": needs, "ported_to_current_tree": False, "port_note": None}
         json.dump(meta, open(f"{dst}/meta.json", "w"), indent=1)
         print(dst, len(needs))
